@@ -458,6 +458,9 @@ void ScriptVM::NotifyDelete()
 
         if (m_ScriptClass) {
             m_ScriptClass->RemoveThread(this);
+            // the script instance deletes itself with its last thread; this VM lives on until
+            // Execute() returns and must not keep the pointer (same state as after KillThreads)
+            m_ScriptClass = nullptr;
         }
 
         break;
